@@ -1,1 +1,724 @@
-//! C08 harnesses.
+//! C08 — driver-event broadcast: events arrive in order and intact; any loss is reported.
+//! Real code: BroadcastTransmitter::transmit, BroadcastReceiver::{new,receive_next,validate,..},
+//! CopyBroadcastReceiver::receive. Buffers: capacity 64 (or 128) data bytes + 128-byte trailer in a `Mem`.
+//! Oracle: the record layout of the Aeron broadcast protocol written out here with i64 arithmetic (offset = counter
+//! mod capacity, padding record when the aligned record does not fit before the end, 64-bit lap test
+//! `cursor + capacity > tail_intent`), never the implementation's helpers.
+//! Two regimes: harnesses on BroadcastReceiver alone keep tail / lengths symbolic (default field sensitivity);
+//! harnesses through CopyBroadcastReceiver (and the quick in-order ones) use literal layouts with symbolic types and
+//! bytes (`fs=257` + layout pinning, see below) and a trimmed scratch allocation (`small_alloc`).
+//! `unwindset=receive_next:3`: the repaired receive_next re-reads the header when it was lapped while reading; with at
+//! most one interference that loop runs twice (unwinding assertions are on).
+use super::hook;
+use super::util::*;
+use crate::command::control_protocol_events::AeronCommand;
+use crate::concurrent::atomic_buffer::AtomicBuffer;
+use crate::concurrent::broadcast::broadcast_receiver::BroadcastReceiver;
+use crate::concurrent::broadcast::broadcast_transmitter::BroadcastTransmitter;
+use crate::concurrent::broadcast::copy_broadcast_receiver::CopyBroadcastReceiver;
+use crate::concurrent::broadcast::BroadcastTransmitError;
+use crate::utils::types::Index;
+use std::sync::{Arc, Mutex};
+
+const TRAILER: usize = 128;
+const INTENT: usize = 0; // trailer offsets of the protocol: tail-intent, tail, latest
+const TAIL: usize = 8;
+const LATEST: usize = 16;
+
+fn put_i64(m: &mut [u8], at: usize, v: i64) {
+    let b = v.to_le_bytes();
+    let mut i = 0;
+    while i < 8 {
+        m[at + i] = b[i];
+        i += 1;
+    }
+}
+
+fn get_i64(m: &[u8], at: usize) -> i64 {
+    i64::from_le_bytes([m[at], m[at + 1], m[at + 2], m[at + 3], m[at + 4], m[at + 5], m[at + 6], m[at + 7]])
+}
+
+fn get_i32(m: &[u8], at: usize) -> i32 {
+    i32::from_le_bytes([m[at], m[at + 1], m[at + 2], m[at + 3]])
+}
+
+/// An idle broadcast buffer whose three counters stand at `t` (nothing in flight, nothing unread).
+fn set_counters(m: &mut [u8], cap: usize, t: i64) {
+    put_i64(m, cap + INTENT, t);
+    put_i64(m, cap + TAIL, t);
+    put_i64(m, cap + LATEST, t);
+}
+
+fn align8(v: i64) -> i64 {
+    (v + 7) & !7
+}
+
+/// Any event type the transmitter accepts.
+fn any_type() -> i32 {
+    let t: i32 = kani::any();
+    kani::assume(t > 0);
+    t
+}
+
+// ------------------------------------------------------------------------------------------------------------------
+// 4. lap test at full counter width
+// ------------------------------------------------------------------------------------------------------------------
+
+/// validate() == (cursor + capacity > tail_intent) in 64-bit arithmetic for any counter values below 2^62, without
+/// panic. The cursor is whatever `latest` counter a joining receiver finds.
+macro_rules! lap_test {
+    ($name:ident, $cap:expr) => {
+        #[kani::proof]
+        fn $name() {
+            const CAP: usize = $cap;
+            let mut m = Mem::<{ CAP + TRAILER }>::zeroed();
+            let cursor: i64 = kani::any();
+            let intent: i64 = kani::any();
+            kani::assume(cursor >= 0 && cursor < (1i64 << 62) && intent >= 0 && intent < (1i64 << 62));
+            put_i64(&mut m.0, CAP + LATEST, cursor);
+            put_i64(&mut m.0, CAP + INTENT, intent);
+            let rx = vok!(BroadcastReceiver::new(m.buf()), "C08: receiver accepts a power-of-two capacity");
+            let got = rx.validate();
+            assert!(got == (cursor + CAP as i64 > intent), "C08: lap test must equal cursor + capacity > tail_intent in 64 bits");
+            kani::cover!(cursor >= (1i64 << 31) && got, "[must] counters beyond 2^31, not lapped");
+            kani::cover!(cursor >= (1i64 << 31) && !got, "[must] counters beyond 2^31, lapped");
+        }
+    };
+}
+// @verif tier=quick
+lap_test!(c08_validate_matches_64bit_lap_test_cap8, 8);
+// @verif tier=quick
+lap_test!(c08_validate_matches_64bit_lap_test_cap64, 64);
+// @verif tier=quick
+lap_test!(c08_validate_matches_64bit_lap_test_cap1024, 1024);
+
+/// Vacuity witness: the lap test does NOT equal the comparison of the counters truncated to 32 bits (the formula the
+/// code used before the repair); this harness must fail.
+// @verif tier=quick twin=1
+#[kani::proof]
+fn c08_twin_lap_test_is_not_the_32bit_comparison() {
+    let mut m = Mem::<{ 64 + TRAILER }>::zeroed();
+    let cursor: i64 = kani::any();
+    let intent: i64 = kani::any();
+    kani::assume(cursor >= 0 && cursor < (1i64 << 62) && intent >= 0 && intent < (1i64 << 62));
+    put_i64(&mut m.0, 64 + LATEST, cursor);
+    put_i64(&mut m.0, 64 + INTENT, intent);
+    let rx = vok!(BroadcastReceiver::new(m.buf()), "C08: receiver accepts a power-of-two capacity");
+    assert!(rx.validate() == ((cursor as i32).wrapping_add(64) > intent as i32), "C08: TWIN lap test equals the truncated 32-bit comparison");
+}
+
+// ------------------------------------------------------------------------------------------------------------------
+// 1. one transmit from any aligned tail below 2^40, receiver constructed before it
+// ------------------------------------------------------------------------------------------------------------------
+
+macro_rules! single_transmit {
+    ($name:ident, $cap:expr) => {
+        #[kani::proof]
+        fn $name() {
+            const CAP: usize = $cap;
+            const MAXLEN: usize = CAP / 8;
+            let mut m = Mem::<{ CAP + TRAILER }>::any();
+            let t: i64 = kani::any();
+            kani::assume(t >= 0 && t < (1i64 << 40) && t % 8 == 0);
+            set_counters(&mut m.0, CAP, t);
+            let mut src = Mem::<MAXLEN>::any();
+            let ty = any_type();
+            let len: usize = kani::any();
+            kani::assume(len <= MAXLEN);
+            let mut tx = vok!(BroadcastTransmitter::new(m.buf()), "C08: transmitter accepts the capacity");
+            let mut rx = vok!(BroadcastReceiver::new(m.buf()), "C08: receiver accepts the capacity");
+            assert!(!rx.receive_next(), "C08: nothing to receive before the transmit");
+            vok!(tx.transmit(ty, &src.buf(), 0, len as Index), "C08: legal event refused by transmit");
+
+            // protocol oracle
+            let aligned = align8(len as i64 + 8);
+            let off = t % CAP as i64;
+            let wrapped = CAP as i64 - off < aligned;
+            let start = if wrapped { t + (CAP as i64 - off) } else { t };
+            let roff = (start % CAP as i64) as usize;
+            assert!(get_i64(&m.0, CAP + TAIL) == start + aligned, "C08: tail counter advances by padding + aligned record");
+            assert!(get_i64(&m.0, CAP + LATEST) == start, "C08: latest counter names the start of the new record");
+            assert!(get_i64(&m.0, CAP + INTENT) == start + aligned, "C08: tail intent equals the final tail");
+
+            assert!(rx.receive_next(), "C08: transmitted event not received");
+            assert!(rx.type_id() == ty, "C08: received type differs from the transmitted type");
+            assert!(rx.length() == len as i32, "C08: received length differs from the transmitted length");
+            assert!(rx.offset() as usize == roff + 8, "C08: received message offset is not the record just written");
+            let j: usize = kani::any();
+            kani::assume(j < MAXLEN);
+            assert!(j >= len || m.0[roff + 8 + j] == src.0[j], "C08: received bytes differ from the transmitted bytes");
+            assert!(rx.validate(), "C08: loss reported although the backlog is below the capacity");
+            assert!(rx.lapped_count() == 0, "C08: lapped count changed although the receiver kept up");
+            assert!(!rx.receive_next(), "C08: an event was received that was never transmitted");
+            kani::cover!(wrapped, "[must] wrap path taken (padding record skipped)");
+            kani::cover!(!wrapped && t >= (1i64 << 31), "[must] counter beyond 2^31 bytes");
+            kani::cover!(len == 0, "[must] empty event");
+            kani::cover!(len == MAXLEN, "[must] maximal event");
+        }
+    };
+}
+// @verif tier=quick unwindset=receive_next:3
+single_transmit!(c08_single_transmit_any_tail_cap64, 64);
+// @verif tier=thorough unwindset=receive_next:3
+single_transmit!(c08_single_transmit_any_tail_cap128, 128);
+
+// ------------------------------------------------------------------------------------------------------------------
+// 2. three transmits, received in order (the receiver joins after the first one and starts at `latest`)
+// ------------------------------------------------------------------------------------------------------------------
+
+/// what the protocol says the position of a record transmitted at tail `t` is: (record start, new tail)
+fn place(t: i64, cap: i64, len: i64) -> (i64, i64) {
+    let aligned = align8(len + 8);
+    let off = t % cap;
+    let start = if cap - off < aligned { t + (cap - off) } else { t };
+    (start, start + aligned)
+}
+
+macro_rules! in_order {
+    ($name:ident, $t:expr) => {
+        #[kani::proof]
+        fn $name() {
+            const CAP: usize = 64;
+            const T: i64 = $t;
+            let mut m = Mem::<{ CAP + TRAILER }>::any();
+            set_counters(&mut m.0, CAP, T);
+            let mut src = [Mem::<8>::any(), Mem::<8>::any(), Mem::<8>::any()];
+            let ty = [any_type(), any_type(), any_type()];
+            let len: [usize; 3] = kani::any();
+            kani::assume(len[0] <= 8 && len[1] <= 8 && len[2] <= 8);
+            let mut tx = vok!(BroadcastTransmitter::new(m.buf()), "C08: transmitter accepts the capacity");
+            vok!(tx.transmit(ty[0], &src[0].buf(), 0, len[0] as Index), "C08: legal event refused by transmit");
+            let mut rx = vok!(BroadcastReceiver::new(m.buf()), "C08: receiver accepts the capacity");
+            vok!(tx.transmit(ty[1], &src[1].buf(), 0, len[1] as Index), "C08: legal event refused by transmit");
+            vok!(tx.transmit(ty[2], &src[2].buf(), 0, len[2] as Index), "C08: legal event refused by transmit");
+            let (s0, e0) = place(T, CAP as i64, len[0] as i64);
+            let (s1, e1) = place(e0, CAP as i64, len[1] as i64);
+            let (s2, e2) = place(e1, CAP as i64, len[2] as i64);
+            assert!(get_i64(&m.0, CAP + TAIL) == e2 && get_i64(&m.0, CAP + LATEST) == s2, "C08: counters after three transmits");
+            assert!(e2 - s0 < CAP as i64, "C08: harness: backlog stays below the capacity");
+            let starts = [s0, s1, s2];
+            let j: usize = kani::any();
+            kani::assume(j < 8);
+            let mut i = 0;
+            while i < 3 {
+                assert!(rx.receive_next(), "C08: transmitted event not received although the backlog is below capacity");
+                let roff = (starts[i] % CAP as i64) as usize;
+                assert!(rx.type_id() == ty[i], "C08: events out of order or type altered");
+                assert!(rx.length() == len[i] as i32, "C08: events out of order or length altered");
+                assert!(rx.offset() as usize == roff + 8, "C08: received message is not the i-th transmitted record");
+                if j < len[i] {
+                    assert!(m.0[roff + 8 + j] == src[i].0[j], "C08: received bytes differ from the transmitted bytes");
+                }
+                assert!(rx.validate(), "C08: loss reported although the backlog is below the capacity");
+                i += 1;
+            }
+            assert!(!rx.receive_next(), "C08: an event was received that was never transmitted");
+            assert!(rx.lapped_count() == 0, "C08: lapped count changed although the receiver kept up");
+            kani::cover!(T % 64 == 0 || s1 != e0 || s2 != e1, "[must] wrap path taken between the events (tails not at offset 0)");
+            kani::cover!(s1 == e0 && s2 == e1 && len[0] == 0 && len[2] == 8, "[must] contiguous path taken, empty and maximal event");
+        }
+    };
+}
+// @verif tier=thorough unwindset=receive_next:3
+in_order!(c08_three_in_order_tail_0, 0);
+// @verif tier=thorough unwindset=receive_next:3
+in_order!(c08_three_in_order_tail_near_wrap, 40);
+// @verif tier=thorough unwindset=receive_next:3
+in_order!(c08_three_in_order_tail_2p31_minus_64, (1i64 << 31) - 64);
+// @verif tier=thorough unwindset=receive_next:3
+in_order!(c08_three_in_order_tail_crossing_2p31, (1i64 << 31) - 24);
+// @verif tier=thorough unwindset=receive_next:3
+in_order!(c08_three_in_order_tail_2p32, 1i64 << 32);
+// @verif tier=thorough unwindset=receive_next:3
+in_order!(c08_three_in_order_tail_crossing_2p32, (1i64 << 32) - 24);
+// @verif tier=thorough unwindset=receive_next:3
+in_order!(c08_three_in_order_tail_2p40, (1i64 << 40) + 40);
+
+// ------------------------------------------------------------------------------------------------------------------
+// Layout pinning (regime R1). With `fs=257` CBMC tracks every byte of the 192-byte buffer separately and folds
+// constants, so record offsets and lengths read back by the code under test are literals - as long as the layout is
+// literal. `put::<i32>(type_offset, <symbolic type>)` inside transmit defeats the folding for the whole array, so
+// after every transmit the harness (1) ASSERTS that the layout words (record length, padding header, the three
+// counters) equal the protocol oracle and (2) stores those very values again byte by byte. (2) is a no-op whenever
+// (1) holds, and (1) is checked by the solver, so nothing is assumed; event types and payload bytes stay symbolic.
+// ------------------------------------------------------------------------------------------------------------------
+
+fn pin_i32(m: &mut [u8], at: usize, v: i32) {
+    assert!(get_i32(m, at) == v, "C08: record length / padding header differs from the protocol layout");
+    let b = v.to_le_bytes();
+    m[at] = b[0];
+    m[at + 1] = b[1];
+    m[at + 2] = b[2];
+    m[at + 3] = b[3];
+}
+
+fn pin_i64(m: &mut [u8], at: usize, v: i64) {
+    assert!(get_i64(m, at) == v, "C08: broadcast counter differs from the protocol value");
+    put_i64(m, at, v);
+}
+
+/// Oracle for the state after transmitting events of lengths lens[..n] from the idle state at `t0`: pins the header
+/// words of every record/padding not yet overwritten and the three counters. Returns (start of the last record,
+/// final tail).
+fn pin_layout(m: &mut [u8], cap: usize, t0: i64, lens: &[usize], n: usize) -> (i64, i64) {
+    let c = cap as i64;
+    let mut end = t0;
+    let mut i = 0;
+    while i < n {
+        end = place(end, c, lens[i] as i64).1;
+        i += 1;
+    }
+    let mut t = t0;
+    let mut latest = t0;
+    let mut i = 0;
+    while i < n {
+        let (s, e) = place(t, c, lens[i] as i64);
+        if s != t && t >= end - c {
+            pin_i32(m, (t % c) as usize, (s - t) as i32);
+            pin_i32(m, (t % c) as usize + 4, -1);
+        }
+        if s >= end - c {
+            pin_i32(m, (s % c) as usize, lens[i] as i32 + 8);
+        }
+        latest = s;
+        t = e;
+        i += 1;
+    }
+    pin_i64(m, cap + INTENT, end);
+    pin_i64(m, cap + TAIL, end);
+    pin_i64(m, cap + LATEST, latest);
+    (latest, end)
+}
+
+/// start of the i-th record (0-based) of that history
+fn start_of(cap: usize, t0: i64, lens: &[usize], i: usize) -> i64 {
+    let mut t = t0;
+    let mut k = 0;
+    while k < i {
+        t = place(t, cap as i64, lens[k] as i64).1;
+        k += 1;
+    }
+    place(t, cap as i64, lens[i] as i64).0
+}
+
+// ------------------------------------------------------------------------------------------------------------------
+// 2b. literal layouts (quick): three transmits of given lengths, received in order
+// ------------------------------------------------------------------------------------------------------------------
+
+macro_rules! in_order_fixed {
+    ($name:ident, $t:expr, $lens:expr) => {
+        #[kani::proof]
+        fn $name() {
+            const CAP: usize = 64;
+            const T: i64 = $t;
+            const LENS: [usize; 3] = $lens;
+            let mut m = Mem::<{ CAP + TRAILER }>::any();
+            set_counters(&mut m.0, CAP, T);
+            let mut src = [Mem::<8>::any(), Mem::<8>::any(), Mem::<8>::any()];
+            let ty = [any_type(), any_type(), any_type()];
+            let mut tx = vok!(BroadcastTransmitter::new(m.buf()), "C08: transmitter accepts the capacity");
+            vok!(tx.transmit(ty[0], &src[0].buf(), 0, LENS[0] as Index), "C08: legal event refused by transmit");
+            pin_layout(&mut m.0, CAP, T, &LENS, 1);
+            let mut rx = vok!(BroadcastReceiver::new(m.buf()), "C08: receiver accepts the capacity");
+            vok!(tx.transmit(ty[1], &src[1].buf(), 0, LENS[1] as Index), "C08: legal event refused by transmit");
+            pin_layout(&mut m.0, CAP, T, &LENS, 2);
+            vok!(tx.transmit(ty[2], &src[2].buf(), 0, LENS[2] as Index), "C08: legal event refused by transmit");
+            let (_, end) = pin_layout(&mut m.0, CAP, T, &LENS, 3);
+            assert!(end - start_of(CAP, T, &LENS, 0) < CAP as i64, "C08: harness: backlog stays below the capacity");
+            let j: usize = kani::any();
+            kani::assume(j < 8);
+            let mut i = 0;
+            while i < 3 {
+                assert!(rx.receive_next(), "C08: transmitted event not received although the backlog is below capacity");
+                let roff = (start_of(CAP, T, &LENS, i) % CAP as i64) as usize;
+                assert!(rx.type_id() == ty[i], "C08: events out of order or type altered");
+                assert!(rx.length() == LENS[i] as i32, "C08: events out of order or length altered");
+                assert!(rx.offset() as usize == roff + 8, "C08: received message is not the i-th transmitted record");
+                assert!(j >= LENS[i] || m.0[roff + 8 + j] == src[i].0[j], "C08: received bytes differ from the transmitted bytes");
+                assert!(rx.validate(), "C08: loss reported although the backlog is below the capacity");
+                i += 1;
+            }
+            assert!(!rx.receive_next(), "C08: an event was received that was never transmitted");
+            assert!(rx.lapped_count() == 0, "C08: lapped count changed although the receiver kept up");
+            let wrapped = start_of(CAP, T, &LENS, 2) / CAP as i64 != T / CAP as i64;
+            kani::cover!(wrapped || T % 64 == 0, "[must] wrap path taken between the events (tails not at offset 0)");
+        }
+    };
+}
+// @verif tier=quick unwindset=receive_next:3 fs=257
+in_order_fixed!(c08_in_order_fixed_tail_0, 0, [8, 0, 5]);
+// @verif tier=quick unwindset=receive_next:3 fs=257
+in_order_fixed!(c08_in_order_fixed_padding_wrap, 40, [8, 8, 1]);
+// @verif tier=quick unwindset=receive_next:3 fs=257
+in_order_fixed!(c08_in_order_fixed_exact_wrap, 40, [0, 8, 8]);
+// @verif tier=quick unwindset=receive_next:3 fs=257
+in_order_fixed!(c08_in_order_fixed_2p31_minus_64, (1i64 << 31) - 64, [8, 3, 0]);
+// @verif tier=quick unwindset=receive_next:3 fs=257
+in_order_fixed!(c08_in_order_fixed_crossing_2p31, (1i64 << 31) - 24, [8, 8, 8]);
+// @verif tier=quick unwindset=receive_next:3 fs=257
+in_order_fixed!(c08_in_order_fixed_crossing_2p32, (1i64 << 32) - 24, [2, 8, 8]);
+// @verif tier=quick unwindset=receive_next:3 fs=257
+in_order_fixed!(c08_in_order_fixed_2p40, (1i64 << 40) + 40, [8, 8, 7]);
+
+// ------------------------------------------------------------------------------------------------------------------
+// 3. overrun of a copying receiver (sequential)
+// ------------------------------------------------------------------------------------------------------------------
+
+/// The 4096-byte scratch allocation of CopyBroadcastReceiver is trimmed to 256 bytes of real memory (its nominal
+/// capacity stays 4096). The broadcast buffers here are 192 bytes, so no copy that passes the source bounds check can
+/// be longer; CBMC's pointer checks flag any access beyond the 256 bytes, so behaviour is unchanged.
+pub fn small_alloc(size: Index) -> *mut u8 {
+    let n = if size > 256 { 256 } else { size as usize };
+    unsafe { std::alloc::alloc_zeroed(std::alloc::Layout::from_size_align_unchecked(n, 64)) }
+}
+
+/// Any event type a CopyBroadcastReceiver can hand to its handler (ids defined by the control protocol).
+fn any_protocol_type() -> i32 {
+    let t: i32 = kani::any();
+    kani::assume((t >= 0x01 && t <= 0x0E) || (t >= 0xF01 && t <= 0xF0A));
+    t
+}
+
+struct Seen {
+    calls: u32,
+    ty: i32,
+    len: i32,
+    byte: u8,
+}
+
+/// one CopyBroadcastReceiver::receive; the handler records type, length and the byte at index `probe`
+fn copy_receive(copy: &mut CopyBroadcastReceiver, probe: usize, seen: &mut Seen) -> Result<usize, BroadcastTransmitError> {
+    copy.receive(|msg, buf, off, len| {
+        seen.calls += 1;
+        seen.ty = msg as i32;
+        seen.len = len;
+        if (probe as i32) < len {
+            seen.byte = buf.get::<u8>(off + probe as i32);
+        }
+    })
+}
+
+fn is_unable_to_keep_up(e: BroadcastTransmitError) -> bool {
+    let r = matches!(e, BroadcastTransmitError::UnableToKeepUpWithBroadcastBuffer);
+    std::mem::forget(e);
+    r
+}
+
+/// The receiver stands idle at T; five events of the given lengths are transmitted; it receives; a sixth event is
+/// transmitted; it receives again. Whether the five lap it is decided by the 64-bit protocol rule.
+macro_rules! overrun {
+    ($name:ident, $t:expr, $lens:expr) => {
+        #[kani::proof]
+        #[kani::stub(crate::utils::misc::alloc_buffer_aligned, small_alloc)]
+        fn $name() {
+            const CAP: usize = 64;
+            const T: i64 = $t;
+            const LENS: [usize; 6] = $lens;
+            let mut m = Mem::<{ CAP + TRAILER }>::any();
+            set_counters(&mut m.0, CAP, T);
+            let mut src = [Mem::<8>::any(), Mem::<8>::any(), Mem::<8>::any(), Mem::<8>::any(), Mem::<8>::any(), Mem::<8>::any()];
+            let ty = [any_protocol_type(), any_protocol_type(), any_protocol_type(), any_protocol_type(), any_protocol_type(), any_protocol_type()];
+            let mut tx = vok!(BroadcastTransmitter::new(m.buf()), "C08: transmitter accepts the capacity");
+            let rx = Arc::new(Mutex::new(vok!(BroadcastReceiver::new(m.buf()), "C08: receiver accepts the capacity")));
+            let mut copy = CopyBroadcastReceiver::new(rx.clone());
+            let mut tail = T;
+            let mut i = 0;
+            while i < 5 {
+                vok!(tx.transmit(ty[i], &src[i].buf(), 0, LENS[i] as Index), "C08: legal event refused by transmit");
+                tail = pin_layout(&mut m.0, CAP, T, &LENS, i + 1).1;
+                i += 1;
+            }
+            let lapped = T + CAP as i64 <= tail; // the receiver stands at T: backlog >= capacity
+            let probe: usize = kani::any();
+            kani::assume(probe < 8);
+            let mut seen = Seen { calls: 0, ty: 0, len: 0, byte: 0 };
+            let r = copy_receive(&mut copy, probe, &mut seen);
+            let lc = match rx.lock() {
+                Ok(g) => g.lapped_count(),
+                Err(_) => 99,
+            };
+            if lapped {
+                match r {
+                    Ok(_) => assert!(false, "C08: overrun receiver did not report that it could not keep up"),
+                    Err(e) => assert!(is_unable_to_keep_up(e), "C08: overrun reported as a different error"),
+                }
+                assert!(seen.calls == 0, "C08: a newer message was delivered before the loss was reported");
+                assert!(lc == 1, "C08: lapped count must increase on overrun");
+                // everything up to the tail is covered by the report; the receiver resumes with the next event
+                match copy_receive(&mut copy, probe, &mut seen) {
+                    Ok(n) => assert!(n == 0 && seen.calls == 0, "C08: delivery after the loss report without a new event"),
+                    Err(e) => {
+                        std::mem::forget(e);
+                        assert!(false, "C08: second loss report without further traffic");
+                    }
+                }
+                vok!(tx.transmit(ty[5], &src[5].buf(), 0, LENS[5] as Index), "C08: legal event refused by transmit");
+                pin_layout(&mut m.0, CAP, T, &LENS, 6);
+                match copy_receive(&mut copy, probe, &mut seen) {
+                    Ok(n) => {
+                        assert!(n == 1 && seen.calls == 1, "C08: receiver does not resume after an overrun");
+                        assert!(seen.ty == ty[5] && seen.len == LENS[5] as i32, "C08: resumed at something that is not a transmitted event");
+                        assert!(probe >= LENS[5] || seen.byte == src[5].0[probe], "C08: resumed event has altered bytes");
+                    }
+                    Err(e) => {
+                        std::mem::forget(e);
+                        assert!(false, "C08: receiver does not resume after an overrun");
+                    }
+                }
+            } else {
+                match r {
+                    Ok(n) => assert!(n == 1 && seen.calls == 1, "C08: event not delivered although the backlog is below the capacity"),
+                    Err(e) => {
+                        std::mem::forget(e);
+                        assert!(false, "C08: error although the backlog is below the capacity");
+                    }
+                }
+                assert!(seen.ty == ty[0] && seen.len == LENS[0] as i32, "C08: first event delivered with altered type or length");
+                assert!(probe >= LENS[0] || seen.byte == src[0].0[probe], "C08: first event delivered with altered bytes");
+                assert!(lc == 0, "C08: lapped count changed although the receiver kept up");
+            }
+            kani::cover!(seen.calls == 1, "[must] an event is delivered (first one, or the one after the loss report)");
+            std::mem::forget(copy);
+        }
+    };
+}
+// @verif tier=quick unwindset=lock_contended:2,receive_next:3 fs=257
+overrun!(c08_overrun_lapped_tail_0, 0, [8, 8, 8, 8, 8, 5]);
+// @verif tier=quick unwindset=lock_contended:2,receive_next:3 fs=257
+overrun!(c08_overrun_backlog_equals_capacity, 0, [8, 8, 8, 0, 0, 8]);
+// @verif tier=quick unwindset=lock_contended:2,receive_next:3 fs=257
+overrun!(c08_overrun_not_lapped_backlog_56, 0, [8, 8, 0, 0, 0, 8]);
+// @verif tier=thorough unwindset=lock_contended:2,receive_next:3 fs=257
+overrun!(c08_overrun_lapped_with_padding, 40, [8, 8, 8, 8, 8, 3]);
+// @verif tier=quick unwindset=lock_contended:2,receive_next:3 fs=257
+overrun!(c08_overrun_lapped_crossing_2p31, (1i64 << 31) - 64, [8, 8, 8, 8, 8, 8]);
+// @verif tier=thorough unwindset=lock_contended:2,receive_next:3 fs=257
+overrun!(c08_overrun_not_lapped_crossing_2p31, (1i64 << 31) - 24, [8, 0, 0, 8, 0, 8]);
+// @verif tier=thorough unwindset=lock_contended:2,receive_next:3 fs=257
+overrun!(c08_overrun_lapped_crossing_2p32, (1i64 << 32) - 64, [8, 8, 8, 8, 8, 8]);
+// @verif tier=thorough unwindset=lock_contended:2,receive_next:3 fs=257
+overrun!(c08_overrun_lapped_tail_2p40, (1i64 << 40) + 8, [8, 1, 8, 8, 8, 8]);
+
+// ------------------------------------------------------------------------------------------------------------------
+// 5. one transmitter against one copying receiver at shared-memory-access granularity (access hook)
+// ------------------------------------------------------------------------------------------------------------------
+
+/// Everything the env function (a plain `fn()`, no captures) works on. ONE static with a distinctive non-zero field:
+/// Kani merges all-zero `static mut`s with same-content constant allocations (see HARNESS_GUIDE).
+struct Env {
+    magic: u64,
+    shared: Mem<192>,  // the broadcast buffer (capacity 64 + trailer)
+    src: [Mem<8>; 2],  // payloads of the injected events
+    ty: [i32; 2],      // their types
+    t0: i64,           // tail the history started from
+    lens: [usize; 5],  // lengths of the pending events followed by those of the injected ones
+    pre: usize,        // number of pending events
+    n: usize,          // number of injected events
+    ran: bool,
+}
+
+static mut ENV: Env = Env {
+    magic: 0x4330_385f_656e_7601,
+    shared: Mem([0u8; 192]),
+    src: [Mem([0u8; 8]), Mem([0u8; 8])],
+    ty: [0; 2],
+    t0: 0,
+    lens: [0; 5],
+    pre: 0,
+    n: 0,
+    ran: false,
+};
+
+fn env() -> &'static mut Env {
+    unsafe { &mut *std::ptr::addr_of_mut!(ENV) }
+}
+
+/// The other party: `n` complete transmits on the shared buffer (layout pinned after each, see above).
+fn env_transmit() {
+    let e = env();
+    e.ran = true;
+    let lens = e.lens;
+    let mut tx = vok!(BroadcastTransmitter::new(e.shared.buf()), "C08: transmitter accepts the capacity");
+    if e.n >= 1 {
+        vok!(tx.transmit(e.ty[0], &e.src[0].buf(), 0, lens[e.pre] as Index), "C08: legal event refused by transmit");
+        pin_layout(&mut e.shared.0, 64, e.t0, &lens, e.pre + 1);
+    }
+    if e.n >= 2 {
+        vok!(tx.transmit(e.ty[1], &e.src[1].buf(), 0, lens[e.pre + 1] as Index), "C08: legal event refused by transmit");
+        pin_layout(&mut e.shared.0, 64, e.t0, &lens, e.pre + 2);
+    }
+}
+
+/// (a) PRE events are pending for a copying receiver; while it executes `receive`, N complete transmits of the driver
+/// run just before its j-th shared-memory access (j symbolic; j >= number of accesses: no interference).
+/// Accesses of the (repaired) receive on the plain path: 0 tail, 1 intent, 2 length, 3 type, 4 intent (receive_next);
+/// 5 length, 6 type, 7 intent, 8 copy, 9 intent.
+macro_rules! interference {
+    ($name:ident, $t:expr, $lens:expr, $pre:expr, $n:expr) => {
+        #[kani::proof]
+        #[kani::stub(crate::utils::misc::alloc_buffer_aligned, small_alloc)]
+        fn $name() {
+            const CAP: usize = 64;
+            const T: i64 = $t;
+            const LENS: [usize; 5] = $lens;
+            const PRE: usize = $pre;
+            const N: usize = $n;
+            let m = &mut env().shared;
+            *m = Mem::any();
+            set_counters(&mut m.0, CAP, T);
+            let mut src = [Mem::<8>::any(), Mem::<8>::any(), Mem::<8>::any()];
+            let ty = [any_protocol_type(), any_protocol_type(), any_protocol_type()];
+            {
+                let e = env();
+                e.n = N;
+                e.pre = PRE;
+                e.t0 = T;
+                e.lens = LENS;
+                e.ty = [any_protocol_type(), any_protocol_type()];
+                e.src = [Mem::any(), Mem::any()];
+                e.ran = false;
+            }
+            let mut tx = vok!(BroadcastTransmitter::new(m.buf()), "C08: transmitter accepts the capacity");
+            let rx = Arc::new(Mutex::new(vok!(BroadcastReceiver::new(m.buf()), "C08: receiver accepts the capacity")));
+            let mut copy = CopyBroadcastReceiver::new(rx.clone());
+            let mut i = 0;
+            while i < PRE {
+                vok!(tx.transmit(ty[i], &src[i].buf(), 0, LENS[i] as Index), "C08: legal event refused by transmit");
+                pin_layout(&mut m.0, CAP, T, &LENS, i + 1);
+                i += 1;
+            }
+            let s0 = start_of(CAP, T, &LENS, 0);
+            let mut end = T;
+            let mut i = 0;
+            while i < PRE + N {
+                end = place(end, CAP as i64, LENS[i] as i64).1;
+                i += 1;
+            }
+            let lapped = s0 + CAP as i64 <= end; // after the injected transmits
+
+            let j: u32 = kani::any();
+            kani::assume(j <= 12);
+            let probe: usize = kani::any();
+            kani::assume(probe < 8);
+            let mut seen = Seen { calls: 0, ty: 0, len: 0, byte: 0 };
+            hook::begin(u32::MAX, j, Some(env_transmit as fn()), false);
+            let r = copy_receive(&mut copy, probe, &mut seen);
+            let n_acc = hook::end();
+            let ran = env().ran;
+            assert!(ran == (j < n_acc), "C08: harness: the interference point lies inside the operation");
+            let failed = r.is_err();
+            match r {
+                Ok(n) => {
+                    assert!(n == 1 && seen.calls == 1, "C08: pending event neither delivered nor reported lost");
+                    assert!(seen.ty == ty[0] && seen.len == LENS[0] as i32, "C08: delivered event is not the one transmitted (type/length torn)");
+                    assert!(probe >= LENS[0] || seen.byte == src[0].0[probe], "C08: delivered bytes differ from the bytes transmitted (torn copy)");
+                }
+                Err(e) => {
+                    assert!(is_unable_to_keep_up(e), "C08: overrun reported as a different error");
+                    assert!(seen.calls == 0, "C08: message delivered although the loss was reported");
+                    assert!(ran && lapped, "C08: loss reported although the backlog stayed below the capacity");
+                }
+            }
+            kani::cover!(ran && j <= 2 && failed == lapped, "[must] interference before the record read");
+            kani::cover!(ran && j >= 3 && j <= 7 && failed == lapped, "[must] interference between the reads of the record header");
+            kani::cover!(ran && j >= 8 && failed == lapped, "[must] interference after the record header was read (around the copy)");
+            kani::cover!(!ran && !failed, "[must] no interference inside the operation: delivered");
+            std::mem::forget(copy);
+        }
+    };
+}
+// the injected event wraps to offset 0 and its PAYLOAD covers the header of the oldest pending record (offset 8)
+// @verif tier=quick unwindset=lock_contended:2,receive_next:3 fs=257
+interference!(c08_interference_lapping_payload_over_header, 8, [8, 3, 8, 8, 0], 3, 1);
+// @verif tier=thorough unwindset=lock_contended:2,receive_next:3 fs=257
+interference!(c08_interference_not_lapping, 8, [8, 3, 8, 0, 0], 2, 1);
+// two injected events; the second one's HEADER lands exactly on the oldest pending record's header
+// @verif tier=thorough unwindset=lock_contended:2,receive_next:3 fs=257
+interference!(c08_interference_lapping_header_over_header, 0, [8, 8, 8, 8, 5], 3, 2);
+// @verif tier=thorough unwindset=lock_contended:2,receive_next:3 fs=257
+interference!(c08_interference_two_transmits_payload_over_header, 8, [8, 3, 8, 8, 0], 2, 2);
+// @verif tier=thorough unwindset=lock_contended:2,receive_next:3 fs=257
+interference!(c08_interference_lapping_crossing_2p31, (1i64 << 31) - 56, [8, 3, 8, 8, 0], 3, 1);
+// @verif tier=thorough unwindset=lock_contended:2,receive_next:3 fs=257
+interference!(c08_interference_lapping_crossing_2p32, (1i64 << 32) - 56, [5, 8, 1, 8, 0], 3, 1);
+
+/// (b) the transmitter stops forever after its k-th shared-memory access inside `transmit` (k symbolic); a copying
+/// receiver standing PENDING events behind then receives PENDING + 1 times: every delivered event is a completely
+/// transmitted one, in order; the unfinished event is delivered only if its tail update (the last access) happened;
+/// every complete event is delivered or covered by a loss report.
+macro_rules! crash_prefix {
+    ($name:ident, $t:expr, $lens:expr, $pending:expr) => {
+        #[kani::proof]
+        #[kani::stub(crate::utils::misc::alloc_buffer_aligned, small_alloc)]
+        fn $name() {
+            const CAP: usize = 64;
+            const T: i64 = $t;
+            const LENS: [usize; 4] = $lens;
+            const PENDING: usize = $pending; // index of the event whose transmit is cut short
+            let mut m = Mem::<{ CAP + TRAILER }>::any();
+            set_counters(&mut m.0, CAP, T);
+            let mut src = [Mem::<8>::any(), Mem::<8>::any(), Mem::<8>::any(), Mem::<8>::any()];
+            let ty = [any_protocol_type(), any_protocol_type(), any_protocol_type(), any_protocol_type()];
+            let mut tx = vok!(BroadcastTransmitter::new(m.buf()), "C08: transmitter accepts the capacity");
+            let rx = Arc::new(Mutex::new(vok!(BroadcastReceiver::new(m.buf()), "C08: receiver accepts the capacity")));
+            let mut copy = CopyBroadcastReceiver::new(rx.clone());
+            let mut i = 0;
+            while i < PENDING {
+                vok!(tx.transmit(ty[i], &src[i].buf(), 0, LENS[i] as Index), "C08: legal event refused by transmit");
+                pin_layout(&mut m.0, CAP, T, &LENS, i + 1);
+                i += 1;
+            }
+            let k: u32 = kani::any();
+            kani::assume(k <= 10);
+            hook::begin(k, u32::MAX, None, false);
+            vok!(tx.transmit(ty[PENDING], &src[PENDING].buf(), 0, LENS[PENDING] as Index), "C08: legal event refused by transmit");
+            let n_acc = hook::end();
+            let complete = k >= n_acc;
+            let probe: usize = kani::any();
+            kani::assume(probe < 8);
+            let mut next = 0usize; // index of the next event the receiver may deliver
+            let mut reported = false;
+            let mut r = 0;
+            while r < PENDING + 1 {
+                let mut seen = Seen { calls: 0, ty: 0, len: 0, byte: 0 };
+                match copy_receive(&mut copy, probe, &mut seen) {
+                    Ok(n) => {
+                        assert!(n as u32 == seen.calls && n <= 1, "C08: result does not match the deliveries");
+                        if n == 1 {
+                            assert!(next <= PENDING, "C08: an event was delivered that was never transmitted");
+                            assert!(next < PENDING || complete, "C08: a half-written event was delivered");
+                            assert!(seen.ty == ty[next] && seen.len == LENS[next] as i32, "C08: delivered event out of order or torn (type/length)");
+                            assert!(probe >= LENS[next] || seen.byte == src[next].0[probe], "C08: delivered event has torn bytes");
+                            next += 1;
+                        }
+                    }
+                    Err(e) => {
+                        assert!(is_unable_to_keep_up(e), "C08: overrun reported as a different error");
+                        assert!(seen.calls == 0, "C08: message delivered although the loss was reported");
+                        assert!(!reported, "C08: loss reported twice without traffic");
+                        reported = true;
+                        next = PENDING + 1; // everything up to the published tail is covered by the report
+                    }
+                }
+                r += 1;
+            }
+            if !reported {
+                assert!(next == if complete { PENDING + 1 } else { PENDING }, "C08: a completely transmitted event was neither delivered nor reported lost");
+            }
+            kani::cover!(!complete && k >= 3, "[must] transmit cut short after it started writing");
+            kani::cover!(complete, "[must] transmit completed");
+            kani::cover!(reported || PENDING < 3, "[must] lapped path: the unfinished transmit already announced its intent");
+            std::mem::forget(copy);
+        }
+    };
+}
+// unfinished third event, receiver not lapped: delivers the two complete ones, the third only if its tail was published
+// @verif tier=quick unwindset=lock_contended:2,receive_next:3 fs=257
+crash_prefix!(c08_crash_prefix_unfinished_event_not_delivered, 8, [8, 5, 8, 0], 2);
+// unfinished fourth event wraps (padding) and overwrites the first pending record
+// @verif tier=thorough unwindset=lock_contended:2,receive_next:3 fs=257
+crash_prefix!(c08_crash_prefix_unfinished_event_laps_receiver, 8, [8, 5, 8, 8], 3);
+// @verif tier=thorough unwindset=lock_contended:2,receive_next:3 fs=257
+crash_prefix!(c08_crash_prefix_unfinished_event_crossing_2p31, (1i64 << 31) - 40, [8, 5, 8, 0], 2);
+// @verif tier=thorough unwindset=lock_contended:2,receive_next:3 fs=257
+crash_prefix!(c08_crash_prefix_laps_receiver_crossing_2p31, (1i64 << 31) - 56, [8, 8, 1, 8], 3);
